@@ -61,3 +61,18 @@ for D in (1, 2, 3):
               cxx={'self': LAY(D), 'ret': TUP(D)}, requires=['1'],
               ensures=[('strides() lists the stride of every dimension in order', ' && '.join('ret->head_#%d == %s' % (k, lp('self', k, 'stride_')) for k in range(D)))],
               assigns=['*ret'], mode='exact')
+
+# sizes(): tuple (n_0, ..., n_{D-1}) of a well-formed layout with any index bases (C01: "size, sizes, extensions ... agree with that shape")
+for D in (1, 2, 3):
+    common_ = dict(cxx={'self': LAY(D)}, ghosts=ghosts_fn(D), requires=[WF('self', D)], lemmas=WF_lemmas('self', D), mode='uf')
+    if D <= 2:
+        Check('L%d_sizes' % D, ['C01', 'C19'], 'layout', fn=Ln(D) + '::sizes() const', params=['self'],
+              wrapper=('multi::layout_t<%d>::sizes_type' % D, 'L<%d> const* self' % D, 'return self->sizes();'),
+              ensures=[('sizes() lists the extent of every dimension in order',
+                        ' && '.join(('RET.head_#%d == g_n%d' % (k, k)) if D > 1 else 'RET == g_n0' for k in range(D)))],
+              assigns=[], **dict(common_, cxx={'self': LAY(D), 'RET': TUP(D)}))
+    else:
+        Check('L%d_sizes' % D, ['C01', 'C19'], 'layout', fn=Ln(D) + '::sizes() const', params=['ret', 'self'],
+              wrapper=('void', 'multi::layout_t<%d>::sizes_type* ret, L<%d> const* self' % (D, D), 'new(ret) multi::layout_t<%d>::sizes_type(self->sizes());' % D),
+              ensures=[('sizes() lists the extent of every dimension in order', ' && '.join('ret->head_#%d == g_n%d' % (k, k) for k in range(D)))],
+              assigns=['*ret'], **dict(common_, cxx={'self': LAY(D), 'ret': TUP(D)}))
